@@ -131,11 +131,11 @@ def directScalar : Sc → JS
   | .f64 x => .prim (.f64 x)
   | .str s => .prim (.str s)
 
-/-- the reflect.Value arm (l.315-361): by Kind; Float32 stays a float32 payload -/
+/-- the reflect.Value arm (l.315-361): by Kind; Float32 is widened like the direct arm (`value.Float()`) -/
 def reflectScalar : Sc → JS
   | .bool b => .prim (.bool b)
   | .int k i => .prim (.int k i)
-  | .f32 x => .f32 x                  -- `float32(value.Float())`
+  | .f32 x => .prim (.f64 x)          -- `value.Float()`
   | .f64 x => .prim (.f64 x)
   | .str s => .prim (.str s)
 
@@ -192,22 +192,24 @@ def sigOf : Option GT → Sig
   | some (.ptr t) => ⟨22, 0, kindOf t⟩
   | some t => ⟨kindOf t, 0, 0⟩
 
-/-- loop state: `state`, (`kind`,`keyKind`,`elemKind`), and `t` (type of the LAST element seen) -/
+/-- loop state: `state`, (`kind`,`keyKind`,`elemKind`), `t` (type of the LAST element seen) and
+    `first` (type of the FIRST element) -/
 structure St where
   state : Nat
   sig : Sig
   t : Option GT
+  first : Option GT
 deriving DecidableEq, Repr, Inhabited
 
-def St.init : St := ⟨0, ⟨0, 0, 0⟩, none⟩
+def St.init : St := ⟨0, ⟨0, 0, 0⟩, none, none⟩
 
 /-- one iteration for an exported element (l.673-679) -/
 def step (st : St) (g : GoVal) : St :=
   let t := typeOf g
   let s := sigOf t
-  if st.state = 0 then ⟨1, s, t⟩
-  else if st.state = 1 ∧ st.sig ≠ s then ⟨2, st.sig, t⟩
-  else ⟨st.state, st.sig, t⟩
+  if st.state = 0 then ⟨1, s, t, t⟩
+  else if st.state = 1 ∧ (st.sig ≠ s ∨ t ≠ st.first) then ⟨2, st.sig, t, st.first⟩
+  else ⟨st.state, st.sig, t, st.first⟩
 
 def scan : St → GoVals → St
   | st, .nil => st
@@ -290,7 +292,7 @@ def isUndefH : HVal → Bool
 /-- the Array loop over present elements -/
 def mapElems (f : HVal → Res GoVal) : List (Option HVal) → Res GoVals
   | [] => .ok .nil
-  | none :: r => mapElems f r
+  | none :: r => mapElems f r                                        -- holes are skipped
   | some v :: r => (f v).bind fun g => (mapElems f r).map fun gs => .cons g gs
 
 /-- the Object enumeration, skipping undefined-valued properties -/
@@ -346,7 +348,10 @@ def valInteger (E : Env) : JS → Res Int
   | .prim (.int .u32 i) => .ok i
   | .prim (.int .int i) => .ok i
   | .prim (.int .i64 i) => .ok i
-  | .prim v => .ok (numberOfFloat (toFloat E v))      -- int32, uint, uint64 and the rest go through float64
+  | .prim (.int .i32 i) => .ok i
+  | .prim (.int .uint i) => if i ≤ int64Max then .ok i else .ok (numberOfFloat (toFloat E (.int .uint i)))
+  | .prim (.int .u64 i) => if i ≤ int64Max then .ok i else .ok (numberOfFloat (toFloat E (.int .u64 i)))
+  | .prim v => .ok (numberOfFloat (toFloat E v))      -- everything else goes through float64
   | .f32 _ => .panic
   | _ => .err
 
@@ -410,7 +415,7 @@ inductive JTok
 deriving DecidableEq, Repr, Inhabited
 
 /-- Value.MarshalJSON (value.go:969) on primitives: `json.Marshal(v.value)` for numbers and booleans
-    (NaN/Inf: json.UnsupportedValueError), `json.Marshal(v.string())` for strings
+    (a float64 NaN/Inf is written as null, a zero as 0), `json.Marshal(v.string())` for strings
     (invalid UTF-8 becomes U+FFFD). -/
 def valMarshal : JS → Res JTok
   | .prim .undef => .ok .null
@@ -418,8 +423,8 @@ def valMarshal : JS → Res JTok
   | .prim (.bool b) => .ok (.bool b)
   | .prim (.int _ i) => .ok (.int i)
   | .prim (.f64 x) => match x with
-    | .fin .. => .ok (.num x)
-    | _ => .err
+    | .fin s m e => if m = 0 then .ok (.num (.fin false 0 e)) else .ok (.num (.fin s m e))    -- `f == 0` -> "0"
+    | _ => .ok .null                                       -- NaN, ±Inf -> "null"
   | .prim (.str s) => .ok (.str (OttoVerif.Str.unitsOfBytes s))
   | .f32 x => match x with
     | .fin .. => .ok (.num x)             -- float32 encoder: shortest float32 digits (reads back as x in float32)
